@@ -1,7 +1,7 @@
 CONSTANTS Clients <- MCClients  Attackers <- MCAttackers  Realms = {"A", "B"}  Services <- MCServices  Wanted <- MCWanted
           Hop <- MCHop  Nonces = {1, 2, 3, 4}  KeyIds = {1, 2, 3, 4}  MaxHops = 1  MaxMsgs = 8
-          CheckNonce = TRUE  BoundReferrals = TRUE
+          CheckNonce = TRUE  BoundReferrals = TRUE  AuthRealmOwn = TRUE
 SPECIFICATION Spec
-INVARIANTS DeliveredIsRight TGTsAreOwn Secrecy HopsBounded
+INVARIANTS DeliveredIsRight TGTsAreOwn Secrecy HopsBounded ClientRequestsValid
 CONSTRAINT HopConstraint
 CHECK_DEADLOCK FALSE
